@@ -19,6 +19,8 @@ from .. import common, ptydrv
 
 ALPHA = [' ', "'", '"', '$', '*', '?', '[', ']', '{', '}', ',', '~', '#', '|', '&', ';', '<', '>', '(', ')', '\\', '!', '`', '=', '%', '^', 'é']
 CTX = {'U': '', 'S': "'", 'D': '"'}
+# where the entry lives and how that is typed in front of the prefix: working directory, sub-directory, home (~), variable
+LOCS = [('cwd', ''), ('subdirectory', 'sd/'), ('home', '~/'), ('variable', '$VDIR/'), ('subdirectory-with-blank', 's d/')]
 
 
 def prefixes():
@@ -40,35 +42,39 @@ def settle(s, quiet=0.04, limit=2.0):
 
 def run_batch(job):
     """a failure inside a batch is believed only if it is reproduced alone in a fresh session and directory"""
-    ctx, names = job
+    ctx, names, loc = job
     res = _run_batch(job)
     if len(names) == 1:
         return res
     out = []
-    for (c, name, kind, info) in res:
+    for (c, name, kind, info, lc) in res:
         if kind == 'ok':
-            out.append((c, name, kind, info))
+            out.append((c, name, kind, info, lc))
         else:
-            out.extend(_run_batch((ctx, [name])))
+            out.extend(_run_batch((ctx, [name], loc)))
     return out
 
 
 def _run_batch(job):
-    ctx, names = job
+    ctx, names, loc = job
     d = common.fresh_case_dir()
     out = []
     try:
         w = os.path.join(d, 'w')
         os.makedirs(w)
+        home, vdir = os.path.join(d, 'home'), os.path.join(d, 'vdir')
+        where = [w, os.path.join(w, 'sd'), home, vdir, os.path.join(w, 's d')][loc]       # directory holding the entries
+        shown = ['', 'sd/', home + '/', vdir + '/', 's d/'][loc]            # what the program must receive in front of the name
+        os.makedirs(where, exist_ok=True)
         entries = []
         for pre, name in zip(prefixes(), names):
             full = pre + name
             if ctx == 'C':
-                os.makedirs(os.path.join(w, full))
-                with open(os.path.join(w, full, 'child'), 'w') as f:
+                os.makedirs(os.path.join(where, full))
+                with open(os.path.join(where, full, 'child'), 'w') as f:
                     f.write('x')
             else:
-                with open(os.path.join(w, full), 'w') as f:
+                with open(os.path.join(where, full), 'w') as f:
                     f.write('x')
             entries.append((pre, name, full))
         s = None
@@ -76,9 +82,9 @@ def _run_batch(job):
             if s is None or not s.alive():
                 if s is not None:
                     s.close()
-                s = ptydrv.Session(d, cwd=w)
+                s = ptydrv.Session(d, cwd=w, env={'VDIR': vdir})
                 if not s.start():
-                    out.append((ctx, name, 'machinery', 'no prompt'))
+                    out.append((ctx, name, 'machinery', 'no prompt', loc))
                     s.close()
                     s = None
                     continue
@@ -86,10 +92,11 @@ def _run_batch(job):
                 s.line('vh-mark WARMUP 0')
             nrec = len(s.records())
             nprompt = s.prompts()
+            typed_loc = LOCS[loc][1].replace(' ', '\\ ') if ctx in ('U', 'C') else LOCS[loc][1]     # a blank is typed escaped outside quotes
             if ctx == 'C':
-                s.send('cd ' + pre + '\t')
+                s.send('cd ' + typed_loc + pre + '\t')
             else:
-                s.send('vh-argv ' + CTX[ctx] + pre + '\t')
+                s.send('vh-argv ' + CTX[ctx] + typed_loc + pre + '\t')
             settle(s)
             s.send('\r')
             ok = s.wait(lambda: s.prompts() > nprompt, 3.0)
@@ -97,8 +104,8 @@ def _run_batch(job):
                 # the completed line could not be submitted (e.g. it is an incomplete line): abandon it
                 s.send('\x03')
                 s.wait(lambda: s.prompts() > nprompt, 2.0)
-                shown = s.buf[-200:].decode('utf-8', 'replace')
-                out.append((ctx, name, 'completed-line-not-accepted', shown))
+                shown_txt = s.buf[-200:].decode('utf-8', 'replace')
+                out.append((ctx, name, 'completed-line-not-accepted', shown_txt, loc))
                 if not s.alive() or s.prompts() <= nprompt:
                     s.close()
                     s = None
@@ -112,16 +119,16 @@ def _run_batch(job):
                 n3 = s.prompts()
                 s.send('cd ' + common.shquote(w) + '\r')
                 s.wait(lambda: s.prompts() > n3, 3.0)
-                if cwd == os.path.join(w, full):
-                    out.append((ctx, name, 'ok', None))
+                if cwd == os.path.join(where, full):
+                    out.append((ctx, name, 'ok', None, loc))
                 else:
-                    out.append((ctx, name, 'wrong-directory', cwd))
+                    out.append((ctx, name, 'wrong-directory', cwd, loc))
             else:
                 recs = [r for r in s.records()[nrec:] if r.get('k') == 'argv']
-                if len(recs) == 1 and recs[0]['argv'] == [full]:
-                    out.append((ctx, name, 'ok', None))
+                if len(recs) == 1 and recs[0]['argv'] == [shown + full]:
+                    out.append((ctx, name, 'ok', None, loc))
                 else:
-                    out.append((ctx, name, 'wrong-argv', [r['argv'] for r in recs]))
+                    out.append((ctx, name, 'wrong-argv', [r['argv'] for r in recs], loc))
         if s is not None:
             s.close()
         return out
@@ -178,10 +185,9 @@ def run(rep, tier):
     names2 = [''.join(t) for t in itertools.product(ALPHA, repeat=2)]
     jobs = []
 
-    def add(ctx, names):
-        names = [n for n in names if not (ctx == 'C' and False)]
+    def add(ctx, names, loc=0):
         for i in range(0, len(names), 60):
-            jobs.append((ctx, names[i:i + 60]))
+            jobs.append((ctx, names[i:i + 60], loc))
     # names built from paired / structured constructs (a command substitution, a brace group, a quoted part ...)
     structured = ['`x`', '$(x)', '${x}', '$x', '{a,b}', '{1..2}', '[x]', "'x'", '"x"', '~x', 'x~', '*x*', '!!', '!x', '#x', 'x#y', 'a b', ' x', 'x ',
                   '-x', 'x=y', 'x|y', 'x&y', 'x;y', 'x>y', 'x<y', '(x)', 'x\\y', '\\x', 'x\\', '$$', '$?', 'é`x`', "`x`'", '"`x`', '$(x)"', "it's",
@@ -189,6 +195,12 @@ def run(rep, tier):
     for ctx in ('U', 'S', 'D', 'C'):
         add(ctx, names1)
         add(ctx, structured)
+    # the entry in a sub-directory, in the home directory (typed ~/), under a variable (typed $VDIR/)
+    for loc in (1, 2, 3, 4):
+        for ctx in ('U', 'S', 'D', 'C'):
+            if (ctx == 'S' and loc in (2, 3)) or (ctx == 'D' and loc == 2):
+                continue      # `~` / `$VDIR` are not expanded inside these quotes
+            add(ctx, names1 + (structured if tier == 'thorough' or ctx == 'U' else []), loc)
     add('U', names2)
     hot = [n for n in names2 if any(c in n for c in '\'"\\$ `!')]
     if tier == 'thorough':
@@ -201,9 +213,9 @@ def run(rep, tier):
     states = set()
     pty_verdicts = []
     for batch in common.pmap(run_batch, jobs, chunk=1):
-        for ctx, name, kind, info in batch:
+        for ctx, name, kind, info, loc in batch:
             if kind != 'machinery':
-                pty_verdicts.append((ctx, name, kind))
+                pty_verdicts.append((ctx, name, kind, loc))
             rep.evaluations += 1
             rep.transitions += 1
             rep.nontrivial += 1
@@ -216,7 +228,8 @@ def run(rep, tier):
             else:
                 rep.outcome('deviation:' + kind)
                 ctxname = {'U': 'unquoted', 'S': 'single-quote', 'D': 'double-quote', 'C': 'cd'}[ctx]
-                rep.violation('%s:%s:[%s]' % (kind, ctxname, name_class(name)), {'context': ctxname, 'entry_name': 'PREFIX' + name, 'typed': ('cd ' if ctx == 'C' else 'vh-argv ' + CTX.get(ctx, '')) + 'PREFIX<TAB><Enter>'},
+                locs = '' if loc == 0 else ':in-' + LOCS[loc][0]
+                rep.violation('%s:%s%s:[%s]' % (kind, ctxname, locs, name_class(name)), {'context': ctxname, 'location': LOCS[loc][0], 'entry_name': 'PREFIX' + name, 'typed': ('cd ' if ctx == 'C' else 'vh-argv ' + CTX.get(ctx, '')) + LOCS[loc][1] + 'PREFIX<TAB><Enter>'},
                               {'argv': ['PREFIX' + name]}, info, repro='create the entry, type the prefix after `vh-argv %s`, press TAB and Enter in an interactive cicada' % CTX.get(ctx, ''))
     for cmd, typed, missing, extra, shown in common.pmap(run_candidates, [0], chunk=1)[0]:
         rep.evaluations += 1
